@@ -3,7 +3,7 @@
 A program is a tree of nodes; a node is a dict
   {"fl": "p"|"d",          plain task (returns an invocation) | direct task (returns the value)
    "mr": 0|1|2,            max_retries of the task that runs the node
-   "sc": ["ret", v] | ["retry_until", k, v] | ["always_retry"] | ["fail", msg],
+   "sc": ["ret", v] | ["slow", seconds, v] | ["retry_until", k, v] | ["always_retry"] | ["fail", msg],
    "kids": [nodes], "call": "single"|"group"}
 Every node body counts its executions in STATE["exec"][path] (the harness reads it),
 calls its children (singly through .result / the direct wrapper, or as one parallelize
@@ -56,6 +56,12 @@ def _body(spec: dict, path: str) -> Any:
     sc = spec["sc"]
     if sc[0] == "ret":
         return sc[1] + total
+    if sc[0] == "slow":
+        # a body that takes (virtual) time: the thread sleeps, the runner loop keeps iterating
+        from vf import env
+
+        env.CLOCK.sleep(sc[1])
+        return sc[2] + total
     if sc[0] == "retry_until":
         if attempt < sc[1]:
             from pynenc.exceptions import RetryError
